@@ -89,141 +89,141 @@ static inline struct sp_vec_T bs_make_shared_vec(struct vec_T v)
 static inline T T_from_int(int k)
 {
   __CPROVER_assert(k >= -64 && k <= 64, "[shim] integer converted to T lies inside the modelled table -64..64");
-  T r = 0;
-  if (k == 1) r = 1; if (k == -1) r = -1;
-  if (k == 2) r = 2; if (k == -2) r = -2;
-  if (k == 3) r = 3; if (k == -3) r = -3;
-  if (k == 4) r = 4; if (k == -4) r = -4;
-  if (k == 5) r = 5; if (k == -5) r = -5;
-  if (k == 6) r = 6; if (k == -6) r = -6;
-  if (k == 7) r = 7; if (k == -7) r = -7;
-  if (k == 8) r = 8; if (k == -8) r = -8;
-  if (k == 9) r = 9; if (k == -9) r = -9;
-  if (k == 10) r = 10; if (k == -10) r = -10;
-  if (k == 11) r = 11; if (k == -11) r = -11;
-  if (k == 12) r = 12; if (k == -12) r = -12;
-  if (k == 13) r = 13; if (k == -13) r = -13;
-  if (k == 14) r = 14; if (k == -14) r = -14;
-  if (k == 15) r = 15; if (k == -15) r = -15;
-  if (k == 16) r = 16; if (k == -16) r = -16;
-  if (k == 17) r = 17; if (k == -17) r = -17;
-  if (k == 18) r = 18; if (k == -18) r = -18;
-  if (k == 19) r = 19; if (k == -19) r = -19;
-  if (k == 20) r = 20; if (k == -20) r = -20;
-  if (k == 21) r = 21; if (k == -21) r = -21;
-  if (k == 22) r = 22; if (k == -22) r = -22;
-  if (k == 23) r = 23; if (k == -23) r = -23;
-  if (k == 24) r = 24; if (k == -24) r = -24;
-  if (k == 25) r = 25; if (k == -25) r = -25;
-  if (k == 26) r = 26; if (k == -26) r = -26;
-  if (k == 27) r = 27; if (k == -27) r = -27;
-  if (k == 28) r = 28; if (k == -28) r = -28;
-  if (k == 29) r = 29; if (k == -29) r = -29;
-  if (k == 30) r = 30; if (k == -30) r = -30;
-  if (k == 31) r = 31; if (k == -31) r = -31;
-  if (k == 32) r = 32; if (k == -32) r = -32;
-  if (k == 33) r = 33; if (k == -33) r = -33;
-  if (k == 34) r = 34; if (k == -34) r = -34;
-  if (k == 35) r = 35; if (k == -35) r = -35;
-  if (k == 36) r = 36; if (k == -36) r = -36;
-  if (k == 37) r = 37; if (k == -37) r = -37;
-  if (k == 38) r = 38; if (k == -38) r = -38;
-  if (k == 39) r = 39; if (k == -39) r = -39;
-  if (k == 40) r = 40; if (k == -40) r = -40;
-  if (k == 41) r = 41; if (k == -41) r = -41;
-  if (k == 42) r = 42; if (k == -42) r = -42;
-  if (k == 43) r = 43; if (k == -43) r = -43;
-  if (k == 44) r = 44; if (k == -44) r = -44;
-  if (k == 45) r = 45; if (k == -45) r = -45;
-  if (k == 46) r = 46; if (k == -46) r = -46;
-  if (k == 47) r = 47; if (k == -47) r = -47;
-  if (k == 48) r = 48; if (k == -48) r = -48;
-  if (k == 49) r = 49; if (k == -49) r = -49;
-  if (k == 50) r = 50; if (k == -50) r = -50;
-  if (k == 51) r = 51; if (k == -51) r = -51;
-  if (k == 52) r = 52; if (k == -52) r = -52;
-  if (k == 53) r = 53; if (k == -53) r = -53;
-  if (k == 54) r = 54; if (k == -54) r = -54;
-  if (k == 55) r = 55; if (k == -55) r = -55;
-  if (k == 56) r = 56; if (k == -56) r = -56;
-  if (k == 57) r = 57; if (k == -57) r = -57;
-  if (k == 58) r = 58; if (k == -58) r = -58;
-  if (k == 59) r = 59; if (k == -59) r = -59;
-  if (k == 60) r = 60; if (k == -60) r = -60;
-  if (k == 61) r = 61; if (k == -61) r = -61;
-  if (k == 62) r = 62; if (k == -62) r = -62;
-  if (k == 63) r = 63; if (k == -63) r = -63;
-  if (k == 64) r = 64; if (k == -64) r = -64;
+  T r = BS_TLIT(0);
+  if (k == 1) r = BS_TLIT(1); if (k == -1) r = BS_TLIT_NEG(1);
+  if (k == 2) r = BS_TLIT(2); if (k == -2) r = BS_TLIT_NEG(2);
+  if (k == 3) r = BS_TLIT(3); if (k == -3) r = BS_TLIT_NEG(3);
+  if (k == 4) r = BS_TLIT(4); if (k == -4) r = BS_TLIT_NEG(4);
+  if (k == 5) r = BS_TLIT(5); if (k == -5) r = BS_TLIT_NEG(5);
+  if (k == 6) r = BS_TLIT(6); if (k == -6) r = BS_TLIT_NEG(6);
+  if (k == 7) r = BS_TLIT(7); if (k == -7) r = BS_TLIT_NEG(7);
+  if (k == 8) r = BS_TLIT(8); if (k == -8) r = BS_TLIT_NEG(8);
+  if (k == 9) r = BS_TLIT(9); if (k == -9) r = BS_TLIT_NEG(9);
+  if (k == 10) r = BS_TLIT(10); if (k == -10) r = BS_TLIT_NEG(10);
+  if (k == 11) r = BS_TLIT(11); if (k == -11) r = BS_TLIT_NEG(11);
+  if (k == 12) r = BS_TLIT(12); if (k == -12) r = BS_TLIT_NEG(12);
+  if (k == 13) r = BS_TLIT(13); if (k == -13) r = BS_TLIT_NEG(13);
+  if (k == 14) r = BS_TLIT(14); if (k == -14) r = BS_TLIT_NEG(14);
+  if (k == 15) r = BS_TLIT(15); if (k == -15) r = BS_TLIT_NEG(15);
+  if (k == 16) r = BS_TLIT(16); if (k == -16) r = BS_TLIT_NEG(16);
+  if (k == 17) r = BS_TLIT(17); if (k == -17) r = BS_TLIT_NEG(17);
+  if (k == 18) r = BS_TLIT(18); if (k == -18) r = BS_TLIT_NEG(18);
+  if (k == 19) r = BS_TLIT(19); if (k == -19) r = BS_TLIT_NEG(19);
+  if (k == 20) r = BS_TLIT(20); if (k == -20) r = BS_TLIT_NEG(20);
+  if (k == 21) r = BS_TLIT(21); if (k == -21) r = BS_TLIT_NEG(21);
+  if (k == 22) r = BS_TLIT(22); if (k == -22) r = BS_TLIT_NEG(22);
+  if (k == 23) r = BS_TLIT(23); if (k == -23) r = BS_TLIT_NEG(23);
+  if (k == 24) r = BS_TLIT(24); if (k == -24) r = BS_TLIT_NEG(24);
+  if (k == 25) r = BS_TLIT(25); if (k == -25) r = BS_TLIT_NEG(25);
+  if (k == 26) r = BS_TLIT(26); if (k == -26) r = BS_TLIT_NEG(26);
+  if (k == 27) r = BS_TLIT(27); if (k == -27) r = BS_TLIT_NEG(27);
+  if (k == 28) r = BS_TLIT(28); if (k == -28) r = BS_TLIT_NEG(28);
+  if (k == 29) r = BS_TLIT(29); if (k == -29) r = BS_TLIT_NEG(29);
+  if (k == 30) r = BS_TLIT(30); if (k == -30) r = BS_TLIT_NEG(30);
+  if (k == 31) r = BS_TLIT(31); if (k == -31) r = BS_TLIT_NEG(31);
+  if (k == 32) r = BS_TLIT(32); if (k == -32) r = BS_TLIT_NEG(32);
+  if (k == 33) r = BS_TLIT(33); if (k == -33) r = BS_TLIT_NEG(33);
+  if (k == 34) r = BS_TLIT(34); if (k == -34) r = BS_TLIT_NEG(34);
+  if (k == 35) r = BS_TLIT(35); if (k == -35) r = BS_TLIT_NEG(35);
+  if (k == 36) r = BS_TLIT(36); if (k == -36) r = BS_TLIT_NEG(36);
+  if (k == 37) r = BS_TLIT(37); if (k == -37) r = BS_TLIT_NEG(37);
+  if (k == 38) r = BS_TLIT(38); if (k == -38) r = BS_TLIT_NEG(38);
+  if (k == 39) r = BS_TLIT(39); if (k == -39) r = BS_TLIT_NEG(39);
+  if (k == 40) r = BS_TLIT(40); if (k == -40) r = BS_TLIT_NEG(40);
+  if (k == 41) r = BS_TLIT(41); if (k == -41) r = BS_TLIT_NEG(41);
+  if (k == 42) r = BS_TLIT(42); if (k == -42) r = BS_TLIT_NEG(42);
+  if (k == 43) r = BS_TLIT(43); if (k == -43) r = BS_TLIT_NEG(43);
+  if (k == 44) r = BS_TLIT(44); if (k == -44) r = BS_TLIT_NEG(44);
+  if (k == 45) r = BS_TLIT(45); if (k == -45) r = BS_TLIT_NEG(45);
+  if (k == 46) r = BS_TLIT(46); if (k == -46) r = BS_TLIT_NEG(46);
+  if (k == 47) r = BS_TLIT(47); if (k == -47) r = BS_TLIT_NEG(47);
+  if (k == 48) r = BS_TLIT(48); if (k == -48) r = BS_TLIT_NEG(48);
+  if (k == 49) r = BS_TLIT(49); if (k == -49) r = BS_TLIT_NEG(49);
+  if (k == 50) r = BS_TLIT(50); if (k == -50) r = BS_TLIT_NEG(50);
+  if (k == 51) r = BS_TLIT(51); if (k == -51) r = BS_TLIT_NEG(51);
+  if (k == 52) r = BS_TLIT(52); if (k == -52) r = BS_TLIT_NEG(52);
+  if (k == 53) r = BS_TLIT(53); if (k == -53) r = BS_TLIT_NEG(53);
+  if (k == 54) r = BS_TLIT(54); if (k == -54) r = BS_TLIT_NEG(54);
+  if (k == 55) r = BS_TLIT(55); if (k == -55) r = BS_TLIT_NEG(55);
+  if (k == 56) r = BS_TLIT(56); if (k == -56) r = BS_TLIT_NEG(56);
+  if (k == 57) r = BS_TLIT(57); if (k == -57) r = BS_TLIT_NEG(57);
+  if (k == 58) r = BS_TLIT(58); if (k == -58) r = BS_TLIT_NEG(58);
+  if (k == 59) r = BS_TLIT(59); if (k == -59) r = BS_TLIT_NEG(59);
+  if (k == 60) r = BS_TLIT(60); if (k == -60) r = BS_TLIT_NEG(60);
+  if (k == 61) r = BS_TLIT(61); if (k == -61) r = BS_TLIT_NEG(61);
+  if (k == 62) r = BS_TLIT(62); if (k == -62) r = BS_TLIT_NEG(62);
+  if (k == 63) r = BS_TLIT(63); if (k == -63) r = BS_TLIT_NEG(63);
+  if (k == 64) r = BS_TLIT(64); if (k == -64) r = BS_TLIT_NEG(64);
   return r;
 }
 static inline T T_from_size(size_t k)
 {
   __CPROVER_assert(k <= 64, "[shim] integer converted to T lies inside the modelled table 0..64");
-  T r = 0;
-  if (k == 1UL) r = 1;
-  if (k == 2UL) r = 2;
-  if (k == 3UL) r = 3;
-  if (k == 4UL) r = 4;
-  if (k == 5UL) r = 5;
-  if (k == 6UL) r = 6;
-  if (k == 7UL) r = 7;
-  if (k == 8UL) r = 8;
-  if (k == 9UL) r = 9;
-  if (k == 10UL) r = 10;
-  if (k == 11UL) r = 11;
-  if (k == 12UL) r = 12;
-  if (k == 13UL) r = 13;
-  if (k == 14UL) r = 14;
-  if (k == 15UL) r = 15;
-  if (k == 16UL) r = 16;
-  if (k == 17UL) r = 17;
-  if (k == 18UL) r = 18;
-  if (k == 19UL) r = 19;
-  if (k == 20UL) r = 20;
-  if (k == 21UL) r = 21;
-  if (k == 22UL) r = 22;
-  if (k == 23UL) r = 23;
-  if (k == 24UL) r = 24;
-  if (k == 25UL) r = 25;
-  if (k == 26UL) r = 26;
-  if (k == 27UL) r = 27;
-  if (k == 28UL) r = 28;
-  if (k == 29UL) r = 29;
-  if (k == 30UL) r = 30;
-  if (k == 31UL) r = 31;
-  if (k == 32UL) r = 32;
-  if (k == 33UL) r = 33;
-  if (k == 34UL) r = 34;
-  if (k == 35UL) r = 35;
-  if (k == 36UL) r = 36;
-  if (k == 37UL) r = 37;
-  if (k == 38UL) r = 38;
-  if (k == 39UL) r = 39;
-  if (k == 40UL) r = 40;
-  if (k == 41UL) r = 41;
-  if (k == 42UL) r = 42;
-  if (k == 43UL) r = 43;
-  if (k == 44UL) r = 44;
-  if (k == 45UL) r = 45;
-  if (k == 46UL) r = 46;
-  if (k == 47UL) r = 47;
-  if (k == 48UL) r = 48;
-  if (k == 49UL) r = 49;
-  if (k == 50UL) r = 50;
-  if (k == 51UL) r = 51;
-  if (k == 52UL) r = 52;
-  if (k == 53UL) r = 53;
-  if (k == 54UL) r = 54;
-  if (k == 55UL) r = 55;
-  if (k == 56UL) r = 56;
-  if (k == 57UL) r = 57;
-  if (k == 58UL) r = 58;
-  if (k == 59UL) r = 59;
-  if (k == 60UL) r = 60;
-  if (k == 61UL) r = 61;
-  if (k == 62UL) r = 62;
-  if (k == 63UL) r = 63;
-  if (k == 64UL) r = 64;
+  T r = BS_TLIT(0);
+  if (k == 1UL) r = BS_TLIT(1);
+  if (k == 2UL) r = BS_TLIT(2);
+  if (k == 3UL) r = BS_TLIT(3);
+  if (k == 4UL) r = BS_TLIT(4);
+  if (k == 5UL) r = BS_TLIT(5);
+  if (k == 6UL) r = BS_TLIT(6);
+  if (k == 7UL) r = BS_TLIT(7);
+  if (k == 8UL) r = BS_TLIT(8);
+  if (k == 9UL) r = BS_TLIT(9);
+  if (k == 10UL) r = BS_TLIT(10);
+  if (k == 11UL) r = BS_TLIT(11);
+  if (k == 12UL) r = BS_TLIT(12);
+  if (k == 13UL) r = BS_TLIT(13);
+  if (k == 14UL) r = BS_TLIT(14);
+  if (k == 15UL) r = BS_TLIT(15);
+  if (k == 16UL) r = BS_TLIT(16);
+  if (k == 17UL) r = BS_TLIT(17);
+  if (k == 18UL) r = BS_TLIT(18);
+  if (k == 19UL) r = BS_TLIT(19);
+  if (k == 20UL) r = BS_TLIT(20);
+  if (k == 21UL) r = BS_TLIT(21);
+  if (k == 22UL) r = BS_TLIT(22);
+  if (k == 23UL) r = BS_TLIT(23);
+  if (k == 24UL) r = BS_TLIT(24);
+  if (k == 25UL) r = BS_TLIT(25);
+  if (k == 26UL) r = BS_TLIT(26);
+  if (k == 27UL) r = BS_TLIT(27);
+  if (k == 28UL) r = BS_TLIT(28);
+  if (k == 29UL) r = BS_TLIT(29);
+  if (k == 30UL) r = BS_TLIT(30);
+  if (k == 31UL) r = BS_TLIT(31);
+  if (k == 32UL) r = BS_TLIT(32);
+  if (k == 33UL) r = BS_TLIT(33);
+  if (k == 34UL) r = BS_TLIT(34);
+  if (k == 35UL) r = BS_TLIT(35);
+  if (k == 36UL) r = BS_TLIT(36);
+  if (k == 37UL) r = BS_TLIT(37);
+  if (k == 38UL) r = BS_TLIT(38);
+  if (k == 39UL) r = BS_TLIT(39);
+  if (k == 40UL) r = BS_TLIT(40);
+  if (k == 41UL) r = BS_TLIT(41);
+  if (k == 42UL) r = BS_TLIT(42);
+  if (k == 43UL) r = BS_TLIT(43);
+  if (k == 44UL) r = BS_TLIT(44);
+  if (k == 45UL) r = BS_TLIT(45);
+  if (k == 46UL) r = BS_TLIT(46);
+  if (k == 47UL) r = BS_TLIT(47);
+  if (k == 48UL) r = BS_TLIT(48);
+  if (k == 49UL) r = BS_TLIT(49);
+  if (k == 50UL) r = BS_TLIT(50);
+  if (k == 51UL) r = BS_TLIT(51);
+  if (k == 52UL) r = BS_TLIT(52);
+  if (k == 53UL) r = BS_TLIT(53);
+  if (k == 54UL) r = BS_TLIT(54);
+  if (k == 55UL) r = BS_TLIT(55);
+  if (k == 56UL) r = BS_TLIT(56);
+  if (k == 57UL) r = BS_TLIT(57);
+  if (k == 58UL) r = BS_TLIT(58);
+  if (k == 59UL) r = BS_TLIT(59);
+  if (k == 60UL) r = BS_TLIT(60);
+  if (k == 61UL) r = BS_TLIT(61);
+  if (k == 62UL) r = BS_TLIT(62);
+  if (k == 63UL) r = BS_TLIT(63);
+  if (k == 64UL) r = BS_TLIT(64);
   return r;
 }
 #endif
